@@ -2,7 +2,7 @@ SPECIFICATION TraceSpec
 CONSTANTS
     Keys <- TrKeys
     Parent <- TrParent
-    FileMetas = {"f1", "f2"}
+    FileMetas = {"f1", "f2", "f3", "f4"}
     FileHashes = {"h1", "h2"}
     Root = ""
 INVARIANT Judge
